@@ -16,7 +16,7 @@ VIOLATION lines of the supplement batches. Exit code: 0 ok, 1 violation, 2 harne
 """
 import json, os, subprocess, sys, time
 
-V = "/verif"
+V = os.path.dirname(os.path.dirname(os.path.abspath(__file__)))
 prop, seed, jobs, out = sys.argv[1], int(sys.argv[2]), int(sys.argv[3]), sys.argv[4]
 env = dict(os.environ, CARGO_NET_OFFLINE="true")
 summary = {}
